@@ -911,3 +911,48 @@ def dead_parameter_rule(chk: Check, rule: str, prefixes: tuple[str, ...], what: 
                               f"the value taken from the caller's `{unparse(v, 40)}` is overwritten on every path before it is read: the option is accepted and dropped (e.g. `case.call(params={{\"Api-Key\": ...}})`, documented for credentials, never reaches the wire)",
                               fn.loc(st))
     chk.note(f"{rule}: {n} parameter(s), {m} local(s) fed from caller keyword mappings analysed")
+
+
+# ------------------------------------------------------------------------------------------------- not/required semantics
+def forbid_each_property_rule(chk: Check, rule: str, what: str) -> None:
+    """JSON Schema: `not: {required: [a, b]}` rejects only objects that contain BOTH a and b.  To forbid each of several
+    properties the negation has to range over a disjunction (`not: {anyOf: [{required: [a]}, {required: [b]}]}`), and an
+    author's own `not` must not be extended in place (adding names to its `required` weakens what it rejected)."""
+    chk.rule(rule, f"NOT-REQUIRED SEMANTICS({what}): `not: {{required: [a, b]}}` only rejects objects that have a AND b; wherever the converter forbids the removed readOnly / writeOnly properties, a list that can hold more than one name (or an already existing `not`) goes through a disjunction of single-name `required`s, not into one `required` list", floor=1)
+    P = chk.project
+    conv = "specs/openapi/converter.py"
+    fp = P.maybe_func(f"{conv}:forbid_properties")
+    if fp is None:
+        chk.ok(rule, conv, "no conjunction-building helper", "forbid_properties is gone", conv)
+        return
+    # does the helper put all names into ONE `required` list under `not`?
+    joins = [s_ for s_ in walk_body(fp.node) if isinstance(s_, ast.Assign) and any(isinstance(t, ast.Subscript) and isinstance(t.slice, ast.Constant) and t.slice.value == "required" for t in s_.targets)]
+    if not joins:
+        chk.ok(rule, fp, "forbid_properties does not build one `required` list", "", fp.loc())
+        return
+    n = 0
+    for fn in P.module(conv).functions.values():
+        if isinstance(fn.node, ast.Lambda):
+            continue
+        g = cfg_of(fn)
+        for c in body_calls(fn):
+            if not (isinstance(c.func, ast.Name) and c.func.id == "forbid_properties" and len(c.args) >= 2):
+                continue
+            n += 1
+            lst = unparse(c.args[1])
+            tgt = unparse(c.args[0])
+            facts = known_conditions(g, g.stmt_nodes_containing(c))
+            single = facts.get(f"len({lst}) == 1") is True
+            fresh_not = facts.get(f"'not' in {tgt}") is False
+            construct = f"{fn.name}: forbid_properties({tgt}, {lst}) only for a single name and a schema without its own `not`"
+            if single and fresh_not:
+                chk.ok(rule, fn, construct, "", fn.loc(c))
+            else:
+                why = []
+                if not single:
+                    why.append(f"`{lst}` can hold several names: `not: {{required: [id, created]}}` rejects only objects with BOTH, so each removed property is still generated / accepted on its own (two readOnly properties: `id` sent in 150 of 150 request bodies; a response leaking one writeOnly property passes)")
+                if not fresh_not:
+                    why.append(f"an author's existing `not: {{required: [email, phone]}}` gets the names appended to its list, which WEAKENS it (96 of 150 generated bodies then violate the declared schema)")
+                chk.violation(rule, fn, construct, "; ".join(why), fn.loc(c))
+    if n == 0:
+        chk.undecided(rule, conv, "calls of forbid_properties", "none found", conv)
